@@ -26,20 +26,30 @@ static rng_t R;
 static int force_place = -1;
 
 /* allocate an argument buffer of exactly `size` bytes */
+static int heap_mode;    /* --heap 1: exact-size malloc blocks instead of guard pages (run under valgrind memcheck, whose red zones
+                          * see an over-read of a single byte at any alignment) */
 static uint8_t *B(const char *name, size_t size, size_t align, int ro, const void *init)
 {
         barg_t *b = &bargs[nb++];
         int pl = force_place >= 0 ? force_place : (int) rng_below(&R, 3);
         b->name = name; b->ro = ro;
-        uint8_t *p = galloc(&b->g, size, align, pl, pl == G_MID ? (unsigned) (rng_below(&R, 64) & ~(align - 1)) : 0);
+        uint8_t *p;
+        if (heap_mode) {
+                memset(&b->g, 0, sizeof b->g);
+                void *m = NULL;
+                if (align > 16) { if (posix_memalign(&m, align, size ? size : 1)) out_err("posix_memalign failed"); } else m = malloc(size);
+                if (!m) m = malloc(1);
+                b->g.p = m; b->g.size = size; p = m;
+        } else
+        p = galloc(&b->g, size, align, pl, pl == G_MID ? (unsigned) (rng_below(&R, 64) & ~(align - 1)) : 0);
         if (init) memcpy(p, init, size); else memset(p, 0xA5, size);
         b->copy = NULL;
         if (ro && size) { b->copy = malloc(size); memcpy(b->copy, p, size); }
         return p;
 }
-static void arm(void) { for (int i = 0; i < nb; i++) if (bargs[i].ro) gprot(&bargs[i].g, 1); }
-static void disarm(void) { for (int i = 0; i < nb; i++) if (bargs[i].ro) gprot(&bargs[i].g, 0); }
-static void release(void) { for (int i = 0; i < nb; i++) { gfree(&bargs[i].g); free(bargs[i].copy); } nb = 0; }
+static void arm(void) { if (!heap_mode) for (int i = 0; i < nb; i++) if (bargs[i].ro) gprot(&bargs[i].g, 1); }
+static void disarm(void) { if (!heap_mode) for (int i = 0; i < nb; i++) if (bargs[i].ro) gprot(&bargs[i].g, 0); }
+static void release(void) { for (int i = 0; i < nb; i++) { if (heap_mode) free(bargs[i].g.p); else gfree(&bargs[i].g); free(bargs[i].copy); } nb = 0; }
 
 static void report_fault(const char *op, const char *fam)
 {
@@ -61,7 +71,7 @@ static void post(const char *op, const char *fam)
         disarm();
         for (int i = 0; i < nb; i++) {
                 long where;
-                if (!gcanary_ok(&bargs[i].g, &where)) {
+                if (!heap_mode && !gcanary_ok(&bargs[i].g, &where)) {
                         char key[200]; snprintf(key, sizeof key, "canary %s %s buf=%s %s", op, fam, bargs[i].name, where < 0 ? "before" : "after");
                         out_viol("C08", key, rbuf, "byte at offset %ld relative to buffer '%s' (size %zu) was overwritten during %s", where, bargs[i].name, bargs[i].g.size, cur_label);
                 }
@@ -142,7 +152,7 @@ static void gcm_case(const gcmfam_t *f, uint64_t c, int stream)
                         if (route == R_FAM) CALL(op, fam, f->s.upd[ks][dir][nt](kd, ctx, pout, pin, k));
                         else if (route == R_LEGACY) CALL(op, fam, gcm_legacy.s.upd[ks][dir][nt](kd, ctx, pout, pin, k));
                         else CALL(op, fam, gcm_isal.upd[ks][dir][nt](kd, ctx, pout, pin, k));
-                        for (int i = save; i < nb; i++) { gfree(&bargs[i].g); free(bargs[i].copy); }
+                        for (int i = save; i < nb; i++) { if (heap_mode) free(bargs[i].g.p); else gfree(&bargs[i].g); free(bargs[i].copy); }
                         nb = save;
                         off += k; pieces++;
                 }
@@ -270,7 +280,7 @@ static void mh_case(int fi, uint64_t c)
                 int save = nb;
                 uint8_t *p = B("buffer", k, 1, 1, data + off);
                 CALL("mh-update", mh_fams[fi], ((mh_upd_f) fu)(ctx, p, k));
-                for (int i = save; i < nb; i++) { gfree(&bargs[i].g); free(bargs[i].copy); }
+                for (int i = save; i < nb; i++) { if (heap_mode) free(bargs[i].g.p); else gfree(&bargs[i].g); free(bargs[i].copy); }
                 nb = save; off += k; pieces++;
         }
         if (!faulted) {
@@ -312,7 +322,7 @@ static void roll_case(int si, uint64_t c)
                 if (route == R_ISAL) CALL("rolling-run", scans[si].name, isal_rolling_hash2_run((void *) st, buf, max, mask, trigger, (uint32_t *) off, (int *) match));
                 else CALL("rolling-run", scans[si].name, *(int *) match = rolling_hash2_run((void *) st, buf, max, mask, trigger, (uint32_t *) off));
                 feat(mix64(0x208, mix64((uint64_t) si * 64 + w, (uint64_t) (max == 0 ? 0 : max < w ? 1 : max == w ? 2 : max < w + 4 ? 3 : 4) * 4 + (uint64_t) route)));
-                for (int i = save; i < nb; i++) { gfree(&bargs[i].g); free(bargs[i].copy); }
+                for (int i = save; i < nb; i++) { if (heap_mode) free(bargs[i].g.p); else gfree(&bargs[i].g); free(bargs[i].copy); }
                 nb = save; free(data);
         }
         cur_label[0] = 0;
@@ -326,6 +336,7 @@ int main(int argc, char **argv)
         const char *what = arg_str("--what", "gcm");
         famsel = arg_str("--fam", "all");
         force_place = (int) arg_int("--place", -1);
+        heap_mode = (int) arg_int("--heap", 0);
 #define LOOP(body) for (uint64_t c = g_from; c < g_from + g_count; c++) { rng_seed(&R, mix64(g_seed ^ 0xb0b0, mix64(c, (uint64_t) fi))); body; }
         if (!strcmp(what, "gcm") || !strcmp(what, "gcmstream")) {
                 int stream = !strcmp(what, "gcmstream");
